@@ -265,7 +265,7 @@ def run(pid, tier, seed, t0, asbuilt=None):
     for i, wargs in enumerate(WALKS[tier][pid]):
         wpath = os.path.join(d, f"walk-trace-{i}.ndjson")
         one = json.loads(vlib.run_harness("pool", ["walk", "--seed", seed + 1000 * i, "--out", wpath] + wargs))
-        wtraces.append((wpath, "--origins" in wargs and int(wargs[wargs.index("--origins") + 1]) <= 2))
+        wtraces.append((wpath, True))
         wk["runs"] += one["runs"]
         wk["steps"] += one["steps"]
         wk["panics"] += one["panics"]
@@ -337,7 +337,7 @@ def run(pid, tier, seed, t0, asbuilt=None):
     tv = None
     for wpath, small in wtraces:
         if not small:
-            continue       # PoolTrace.cfg has two origins; walks over six concrete origins are only monitored
+            continue
         acc, rejd, rej = trace_validate(pid, wpath)
         if tv is None:
             tv = {"runs_accepted": 0, "runs_rejected": 0, "first_rejections": []}
